@@ -189,22 +189,22 @@ var MonoidMyInt fp.Monoid[MyInt] = monoid.New(func() MyInt { return 0 }, func(a,
 // at a position whose instance is built from the parameter's instance (monoid.MergeSlice[T]() &
 // co. need none).
 func (s *Struct) usedParams(class string) []TParam {
-	// gombok lists the instance parameters in the order in which the fields first need them
+	// the instance parameters follow the DECLARED order of the type parameters (callers - gombok's own generated call
+	// sites included - pass the instances in that order); before fix 142c76a gombok listed them in the order in which
+	// the fields first needed them, and the generated call sites did not compile
 	out := []TParam{}
-	for _, f := range s.Fields {
-		if strings.HasPrefix(f.Name, "_") {
-			continue
+	for _, p := range s.TParams {
+		used := false
+		for _, f := range s.Fields {
+			if strings.HasPrefix(f.Name, "_") {
+				continue
+			}
+			if tyUsesParam(class, f.Ty, p.Name) {
+				used = true
+			}
 		}
-		for _, p := range s.TParams {
-			already := false
-			for _, o := range out {
-				if o.Name == p.Name {
-					already = true
-				}
-			}
-			if !already && tyUsesParam(class, f.Ty, p.Name) {
-				out = append(out, p)
-			}
+		if used {
+			out = append(out, p)
 		}
 	}
 	return out
